@@ -25,6 +25,8 @@ from metapype.model.node import Node
 
 logger = daiquiri.getLogger(__name__)
 
+XML_NAMESPACE = "http://www.w3.org/XML/1998/namespace"
+
 
 def _from_dict(node: dict, parent: Node = None) -> Node:
     """
@@ -85,6 +87,9 @@ def _format_extras(name: str, nsmap: dict) -> str:
     if match is not None:
         uri = match.group(1)
         target = match.group(2)
+        if uri == XML_NAMESPACE:
+            # The xml prefix is bound implicitly and never appears in an nsmap
+            nsname = f"xml:{target}"
         for k, v in nsmap.items():
             if uri == v:
                 nsname = f"{k}:{target}"
